@@ -62,6 +62,14 @@ Example C10_order_once_named_nonvacuous :
   run (mk_inv MEvent "" 3 true ex_fields) ex_on = run ex_inv ex_on.
 Proof. vm_compute. repeat split. Qed.
 
+(** `r#` is kept in the declared name (stringify! of the path), also inside a dotted path and as a shorthand. *)
+Example C10_raw_names :
+  option_map o_names (run (mk_inv MSpan "parent" 5 false
+         (mk_fields [IKV (KeyPath [[114; 35; 116; 121; 112; 101]; [120]]) SNone [0] ex_u8;      (* r#type.x = .. *)
+                     ISh SDisplay [[107]; [114; 35; 102; 110]] [1] ex_str] true None)) ex_on)    (* %k.r#fn, *)
+  = Some [[114; 35; 116; 121; 112; 101; 46; 120]; [107; 46; 114; 35; 102; 110]].
+Proof. vm_compute. reflexivity. Qed.
+
 (** ** Typed: for every type of the grammar and EVERY value of that type, the value goes through the specified
     method unchanged (all integer widths incl. 64-bit usize/isize, NonZero*, Wrapping, references, f32 -> f64). *)
 Theorem C10_typed : forall t v, well_typed t v = true -> route t v = Some (spec_route t v).
@@ -142,6 +150,26 @@ Theorem C10_lazy : forall inv c, wf_inv inv = true ->
     /\ (guard c (i_level inv) = true -> o_ticks o = spec_ticks (i_fields inv) /\ o_delivered o <> None).
 Proof. exact lazy. Qed.
 Print Assumptions C10_lazy.
+
+(** ... "exactly once", literally: with pairwise distinct counters in the written expressions, each counter is hit
+    exactly once when enabled and no counter is hit when disabled. *)
+Theorem C10_evaluated_exactly_once : forall inv c, wf_inv inv = true -> NoDup (spec_ticks (i_fields inv)) ->
+  exists o, run inv c = Some o /\
+    forall i, count_occ N.eq_dec (o_ticks o) i =
+      if guard c (i_level inv) then (if in_dec N.eq_dec i (spec_ticks (i_fields inv)) then 1 else 0)%nat else 0%nat.
+Proof. exact exactly_once. Qed.
+Print Assumptions C10_evaluated_exactly_once.
+
+Example C10_evaluated_exactly_once_nonvacuous :
+  wf_inv ex_inv = true /\ NoDup (spec_ticks (i_fields ex_inv)).
+Proof. split; [vm_compute; reflexivity|]. vm_compute. repeat constructor; simpl; intuition discriminate. Qed.
+
+(** `enabled!` / `event_enabled!` / `span_enabled!`: the callsite declares the written names (nothing is evaluated: the
+    macro has no value expressions), and the answer is the guard followed by the collector's `enabled`. *)
+Theorem C10_enabled_macro : forall f lvl c,
+  run_enabled f lvl c = Some (spec_names f, guard c lvl && c_enabled c).
+Proof. exact enabled_macro. Qed.
+Print Assumptions C10_enabled_macro.
 
 (** Each filtering stage alone disables: static (interest never), dynamic (enabled = false), the level cap
     (max_level_hint / the static max level). *)
